@@ -12,6 +12,8 @@ A spec (plain JSON) is
    'nholders': n, 'links': {'<k>': [[holder idx, object idx], ...]},
    'reopen': bool,                                      # read through a second Database bound to the same file
    'pk_step': n (optional, int pk only),                # pk = (i+1)*n: sparse ids, MAX(id) well above the row count
+   'keyrefs': [{'target': idx, 'composite': bool}] (optional),   # entity K<j> whose primary key IS a reference to the
+   'keyrows': {'<j>': [object idx, ...]} (optional),             # hierarchy (PrimaryKey(T)) or contains one (ref, n)
    'observe': 'type'|'dict'|'subattr' (optional),       # what is looked at FIRST on every object that is reached
    'sessions': [[op, ...], ...]}                        # each inner list runs inside one later db_session
 """
@@ -69,6 +71,8 @@ class Model(object):
             for name in self.attrs_of(o['cls']):
                 exp[name] = self.expected_value(name, o['vals'])
             self.objs.append({'cls': o['cls'], 'pk': self.pk(k), 'exp': exp})
+        self.keyrefs = spec.get('keyrefs', [])
+        self.keyrows = {j: list(spec.get('keyrows', {}).get(str(j), [])) for j in range(len(self.keyrefs))}
         self.links = {}
         for k, r in enumerate(spec['refs']):
             self.links[k] = [tuple(p) for p in spec['links'].get(str(k), [])]
@@ -113,6 +117,9 @@ class Model(object):
             if r['kind'] in ('o2o', 'o2m') and r['target'] in self.anc[ob['cls']]:
                 hs = [h + 1 for (h, oo) in self.links[k] if oo == o]
                 d['h%d' % k] = hs[0] if hs else None
+        for j, kr in enumerate(self.keyrefs):
+            if not kr['composite'] and kr['target'] in self.anc[ob['cls']]:
+                d['k%d' % j] = ob['pk'] if o in self.keyrows[j] else None     # the K row's key is the object's key
         return d
 
     def is_inst(self, o, c):
@@ -267,10 +274,20 @@ def spec_strategy(max_classes=7):
         refs = []
         targets = list(range(n)) + [b for bs in bases_list if len(bs) > 1 for b in bs] * 2   # favour diamond branches
         for k in range(nrefs):
+            if k and draw(st.integers(0, 2)) == 0:      # a second to-one reference of the same declared type
+                refs.append({'target': refs[k - 1]['target'], 'kind': 'one', 'fk': 'holder'})
+                continue
             refs.append({'target': draw(st.sampled_from(targets)),
                          'kind': draw(st.sampled_from(['one', 'one', 'o2o', 'o2m', 'm2m'])),
                          'fk': draw(st.sampled_from(['holder', 'target']))})
         spec['refs'] = refs
+        keyrefs, keyrows = [], {}
+        for j in range(draw(st.sampled_from([0, 0, 1, 1, 2]))):
+            kr = {'target': draw(st.sampled_from(targets)), 'composite': draw(st.booleans())}
+            elig = [o for o, ob in enumerate(objects) if kr['target'] in anc[ob['cls']]]
+            keyrows[str(j)] = [o for o in elig if draw(st.integers(0, 2)) > 0]
+            keyrefs.append(kr)
+        spec['keyrefs'], spec['keyrows'] = keyrefs, keyrows
         nh = spec['nholders'] = draw(st.integers(1, 3))
         links = {}
         for k, r in enumerate(refs):
@@ -314,7 +331,7 @@ def spec_strategy(max_classes=7):
             kind = draw(st.sampled_from(
                 ['holder', 'holders', 'get', 'get', 'getk', 'get_attr', 'get_rev', 'select', 'select', 'sql', 'nav', 'nav',
                  'nav', 'isinst', 'isinst', 'isinst_rel', 'isinst_coll', 'subattr', 'subproj', 'join_attr', 'relobjs',
-                 'missing', 'random', 'random']))
+                 'missing', 'random', 'random', 'relpair', 'relpair', 'keynav', 'keynav', 'pickle_load']))
             if kind == 'holder':
                 return ['holder', draw(st.integers(0, nh - 1))]
             if kind == 'holders':
@@ -369,6 +386,17 @@ def spec_strategy(max_classes=7):
                 return ['relobjs', draw(st.integers(0, nrefs - 1)), draw(st.sampled_from(['obj', 'tuple']))]
             if kind == 'missing':
                 return ['missing', cls_idx()]
+            if kind == 'relpair' and len(to_one) >= 2:
+                k1 = draw(st.sampled_from(to_one))
+                same = [k for k in to_one if k != k1 and refs[k]['target'] == refs[k1]['target']]
+                k2 = draw(st.sampled_from(same)) if same and draw(st.integers(0, 3)) else \
+                    draw(st.sampled_from([k for k in to_one if k != k1]))
+                return ['relpair', k1, k2]
+            if kind == 'keynav' and keyrefs:
+                return ['keynav', draw(st.integers(0, len(keyrefs) - 1)), draw(st.sampled_from(['select', 'method']))]
+            if kind == 'pickle_load':
+                return ['pickle_load', draw(st.integers(0, 2)), draw(st.integers(0, nrefs - 1)),
+                        draw(st.sampled_from(['iter', 'copy', 'select']))]
             if kind == 'random':
                 return ['random', cls_idx(), draw(st.integers(1, 3)), draw(st.sampled_from(['fast', 'fast', 'query']))]
             return ['select', cls_idx(), 'gen']
@@ -381,6 +409,17 @@ def spec_strategy(max_classes=7):
             for _ in range(draw(st.integers(1, 5))):
                 ops.append(one_op())
             sessions.append(ops)
+        if draw(st.integers(0, 2)) == 0:
+            # objects pickled while their references are still unloaded, unpickled at the start of a later session
+            what = draw(st.sampled_from(['holder', 'holder', 'holders', 'objects']))
+            arg = draw(st.integers(0, nh - 1)) if what == 'holder' else (cls_idx() if what == 'objects' else 0)
+            si = draw(st.integers(0, len(sessions) - 1))
+            sessions[si].insert(0, ['pickle_dump', what, arg])
+            load = ['pickle_load', 0, draw(st.integers(0, nrefs - 1)), draw(st.sampled_from(['iter', 'copy', 'select']))]
+            if si + 1 < len(sessions) and draw(st.booleans()):
+                sessions[si + 1].insert(0, load)
+            else:
+                sessions.insert(si + 1, [load])
         spec['sessions'] = sessions
         return spec
 
@@ -433,6 +472,9 @@ def define(db, spec):
                 attrs['h%d' % k] = Optional('Holder', reverse='r%d' % k)
             else:
                 attrs['h%d' % k] = Set('Holder', reverse='r%d' % k)
+        for j, kr in enumerate(spec.get('keyrefs', [])):
+            if kr['target'] == i:
+                attrs['k%d' % j] = (Set if kr['composite'] else Optional)('K%d' % j, reverse='ref')
         bases = tuple(ents[b] for b in c['bases']) or (db.Entity,)
         ents.append(type(str(c['name']), bases, attrs))
     hattrs = {'id': PrimaryKey(int)}
@@ -446,6 +488,17 @@ def define(db, spec):
         else:
             hattrs['r%d' % k] = Set(target, reverse='h%d' % k)
     Holder = type('Holder', (db.Entity,), hattrs)
+    keyents = []
+    for j, kr in enumerate(spec.get('keyrefs', [])):
+        target = spec['classes'][kr['target']]['name']
+        if kr['composite']:
+            from pony.orm.core import Index
+            ref, num = Required(target, reverse='k%d' % j), Required(int)
+            kattrs = {'ref': ref, 'n': num, '_indexes_': [Index(ref, num, is_pk=True)]}
+        else:
+            kattrs = {'ref': PrimaryKey(target, reverse='k%d' % j)}
+        keyents.append(type('K%d' % j, (db.Entity,), kattrs))
+    Holder._c27_keyents_ = keyents
     return ents, Holder
 
 
@@ -485,6 +538,12 @@ def populate(db, ents, Holder, model):
                     setattr(holders[h], 'r%d' % k, objs[o])
                 else:
                     getattr(holders[h], 'r%d' % k).add(objs[o])
+        for j, kr in enumerate(model.keyrefs):
+            for o in model.keyrows[j]:
+                if kr['composite']:
+                    Holder._c27_keyents_[j](ref=objs[o], n=o + 1)
+                else:
+                    Holder._c27_keyents_[j](ref=objs[o])
 
 
 # ------------------------------------------------------------------------------------------------
@@ -500,6 +559,21 @@ class Reader(object):
         self.G = {c['name']: ents[i] for i, c in enumerate(model.spec['classes'])}
         self.G['Holder'] = Holder
         self.G['isinstance'] = isinstance
+        self.keyents = Holder._c27_keyents_
+        for j, K in enumerate(self.keyents):
+            self.G['K%d' % j] = K
+        self.pickles = []
+        # pickle stores classes by reference (module + name): give the type()-made classes an importable home
+        import sys, types
+        mod = sys.modules.get('c27_dynamic_entities')
+        if mod is None:
+            mod = sys.modules['c27_dynamic_entities'] = types.ModuleType('c27_dynamic_entities')
+        for name in [n_ for n_ in vars(mod) if not n_.startswith('__')]:
+            delattr(mod, name)
+        for name, cls in self.G.items():
+            if name != 'isinstance':
+                cls.__module__ = 'c27_dynamic_entities'
+                setattr(mod, name, cls)
         self.pk2o = {ob['pk']: o for o, ob in enumerate(model.objs)}
 
     # -- helpers ---------------------------------------------------------------------------------
@@ -567,7 +641,7 @@ class Reader(object):
             val = getattr(obj, name)
         except AttributeError as e:
             self.fail(path, 'attribute %s of %s[%r] (declared in %s) cannot be read: %s'
-                      % (name, want, ob['pk'], m.cname(m.own[name][0]), e), mismatch='attr')
+                      % (name, want, ob['pk'], m.cname(m.own[name][0]), e), mismatch='attr', obj=o)
             return False
         if val != ob['exp'][name] or type(val) is not type(ob['exp'][name]):
             self.fail(path, 'attribute %s of %s[%r] (declared in %s) reads %r, stored %r'
@@ -582,7 +656,7 @@ class Reader(object):
         self.bump('to_dict_checks')
         if got != exp:
             self.fail(path, '%s[%r].to_dict() reached through %s gives %r, the stored object is %r'
-                      % (m.cname(ob['cls']), ob['pk'], path, got, exp), mismatch='dict')
+                      % (m.cname(ob['cls']), ob['pk'], path, got, exp), mismatch='dict', obj=o)
             return False
         return True
 
@@ -734,12 +808,14 @@ class Reader(object):
         self.check_objects(res, m.instances(c), c, '%s.select_by_sql' % m.cname(c))
 
     def op_nav(self, k, h, how):
+        self._nav(self.Holder[h + 1], k, h, how, '')
+
+    def _nav(self, holder, k, h, how, prefix):
         m = self.m
         r = m.spec['refs'][k]
-        holder = self.Holder[h + 1]
         t = r['target']
         if r['kind'] in ('one', 'o2o'):
-            path = 'Holder.r%d(%s->%s)' % (k, r['kind'], m.cname(t))
+            path = prefix + 'Holder.r%d(%s->%s)' % (k, r['kind'], m.cname(t))
             val = getattr(holder, 'r%d' % k)
             o = m.ref_of(k, h)
             if o is None:
@@ -750,7 +826,7 @@ class Reader(object):
             else:
                 self.check_objects([val], [o], t, path)
         else:
-            path = 'Holder.r%d(%s->%s).%s' % (k, r['kind'], m.cname(t), how)
+            path = prefix + 'Holder.r%d(%s->%s).%s' % (k, r['kind'], m.cname(t), how)
             coll = getattr(holder, 'r%d' % k)
             if how == 'iter':
                 items = list(coll)
@@ -874,6 +950,85 @@ class Reader(object):
             return
         for (hid, x) in pairs:
             self.check_obj(x, self.pk2o[self.pkof(x)], t, text)
+
+    def op_relpair(self, k1, k2):
+        """tuple query with two entity-typed columns (often of the same declared type)"""
+        m = self.m
+        t1, t2 = m.spec['refs'][k1]['target'], m.spec['refs'][k2]['target']
+        text = '((h.id, h.r%d, h.r%d) for h in Holder)' % (k1, k2)
+        rows = self.select(text)[:]
+        if t1 == t2:
+            self.bump('pair_same_type')
+        seen = {}
+        for (hid, x, y) in rows:
+            if hid in seen:
+                self.fail(text, 'holder %r returned twice' % hid)
+                return
+            seen[hid] = (x, y)
+        for h in range(m.spec['nholders']):
+            o1, o2 = m.ref_of(k1, h), m.ref_of(k2, h)
+            if h + 1 not in seen:
+                if o1 is not None and o2 is not None:
+                    self.fail(text, 'no row for holder %d whose references are both set' % (h + 1))
+                    return
+                continue                    # a row with a missing reference may be dropped by the join: not asserted
+            for (x, o, t) in ((seen[h + 1][0], o1, t1), (seen[h + 1][1], o2, t2)):
+                if (x is None) != (o is None):
+                    self.fail(text, 'holder %d: got %r, expected %r' % (h + 1, x, None if o is None else m.objs[o]['pk']))
+                    return
+                if x is not None:
+                    self.check_objects([x], [o], t, text)
+
+    def op_keynav(self, j, form):
+        """rows of K<j> (primary key = reference to the hierarchy, or (reference, n)) loaded without their targets, then
+        the target is reached through the key attribute"""
+        m = self.m
+        kr = m.keyrefs[j]
+        K = self.keyents[j]
+        path = 'K%d.ref(%s->%s)' % (j, 'composite pk' if kr['composite'] else 'pk', m.cname(kr['target']))
+        rows = self.select('(k for k in K%d)' % j)[:] if form == 'select' else K.select()[:]
+        self.bump('keyref_navigations')
+        got = []
+        for krow in rows:
+            obj = krow.ref
+            if obj is None:
+                self.fail(path, 'key reference is None')
+                return
+            pk = self.pkof(obj)
+            got.append(pk)
+            if pk in self.pk2o:
+                self.check_obj(obj, self.pk2o[pk], kr['target'], path)
+        exp = [m.objs[o]['pk'] for o in m.keyrows[j]]
+        if sorted(got, key=repr) != sorted(exp, key=repr):
+            self.fail(path, 'rows reference %r, stored %r' % (sorted(got, key=repr), sorted(exp, key=repr)))
+
+    def op_pickle_dump(self, what, arg):
+        """pickle objects of this session; they are unpickled by a later pickle_load (usually in a later session)"""
+        import pickle
+        if what == 'holder':
+            self.pickles.append(('holder', arg, pickle.dumps(self.Holder[arg + 1])))
+        elif what == 'holders':
+            hs = sorted(self.select('(h for h in Holder)')[:], key=lambda x: x.id)
+            self.pickles.append(('holders', None, pickle.dumps(hs)))
+        else:
+            objs = list(self.ents[arg].select()[:])
+            self.pickles.append(('objects', arg, pickle.dumps(objs)))
+
+    def op_pickle_load(self, i, k, how):
+        import pickle
+        m = self.m
+        if not self.pickles:
+            return
+        what, arg, data = self.pickles[i % len(self.pickles)]
+        loaded = pickle.loads(data)
+        self.bump('unpickled')
+        if what == 'objects':
+            self.check_objects(loaded, m.instances(arg), arg, 'unpickled %s.select()' % m.cname(arg))
+            return
+        holders = [loaded] if what == 'holder' else loaded
+        for holder in holders:
+            h = holder.id - 1
+            self._nav(holder, k, h, how, 'unpickled ')
 
     def op_random(self, c, limit, form):
         """C.select_random(limit) / C.select().random(limit): `limit` distinct stored instances of C (all of them when fewer
